@@ -2,19 +2,20 @@
 
     What the kernel checks here:
       [visit_terminates]        the forward traversal model (taint [Visitor.Visit] + [addNext], Model/Visit.v, tied to the
-                                code by tools/props/travlib.py) never runs out of the fuel [fuel_bound g] computed from the
-                                graph: all graphs with trivial relative paths (field-sensitive: false), all taint problems
-                                and configurations, all sources, all entry contexts with a lasso-free call stack, all
-                                iteration orders.  No size bound.
+                                code by tools/props/travlib.py) never runs out of the fuel [fuel_bound_fs g] computed from the
+                                graph: ALL graphs (field-sensitive mode included), all taint problems and configurations of
+                                the code as it is now ([c_fixaps cfg = true]: access paths canonical, fix d51dcca), all sources,
+                                all entry contexts with a lasso-free call stack, all iteration orders.  No size bound.
+      [visit_terminates_path_insensitive]  the same for graphs with trivial relative paths (field-sensitive: false), for
+                                both variants of [addNext] (with the smaller bound [fuel_bound g]).
       [dispatch_total_partial]  every type switch of the anchored files that panics in its default clause covers every
                                 concrete implementer of the interface it switches on, except the listed exceptions
                                 (finite theorem over the table regenerated from the Go sources by gentables on every run;
                                 each exception has a side condition that tools/props/c07.py checks on every run).
-      [visit_terminates_repaired]  the repaired addNext (proposed fix) terminates on all graphs, field-sensitive included.
-    Not proved (see status/C07.md): termination in field-sensitive mode of the code AS PINNED - the faithful model DIVERGES there (finding
-    field-sensitive-accesspath-divergence; the bounded witness is [visit_fs_divergence_bounded] below) - and termination of the
-    other loops (backward traversal, intra-procedural pass, escape, pointer analysis), which are covered by the
-    crash/timeout corpus only. *)
+    [visit_unfixed_divergence_bounded] documents why the fix was needed: the model of the ORIGINALLY pinned [addNext]
+    ([c_fixaps = false]) is still running after 300 iterations on a 7-node graph.
+    Not proved (see status/C07.md): termination of the other loops (backward traversal, intra-procedural pass, escape,
+    pointer analysis), which are covered by the crash/timeout corpus only. *)
 From Coq Require Import List String PArith NArith ZArith Bool FMapPositive.
 From Argot Require Import Model.Visit Proofs.VisitBase Proofs.VisitInv Proofs.VisitTerm Proofs.VisitExamples.
 From ArgotGen Require Import GenInstr.
@@ -24,35 +25,44 @@ Import ListNotations.
 
 Theorem visit_terminates :
   forall (g : graph) (P : preds) (cfg : config) (ord : oracle) (src : id) (t : list id) (alarms : N),
+    ord_perm ord -> c_fixaps cfg = true -> wf_trace g t ->
+    forall st, visit g P cfg ord src (fuel_bound_fs g) t alarms <> OutOfFuel st.
+Proof. exact visit_terminates_fixed_lemma. Qed.
+
+Theorem visit_terminates_path_insensitive :
+  forall (g : graph) (P : preds) (cfg : config) (ord : oracle) (src : id) (t : list id) (alarms : N),
     ord_perm ord -> path_insensitive g -> wf_trace g t ->
     forall st, visit g P cfg ord src (fuel_bound g) t alarms <> OutOfFuel st.
 Proof. exact visit_terminates_lemma. Qed.
 
-(** the hypotheses are satisfiable by a graph with a recursive function, and on it the run is non-trivial *)
+(** the hypotheses are satisfiable: a graph with a recursive function (path-insensitive) and the field-sensitive graph of
+    `x := source(); for .. { x = id(x) }; sink(x.A)`; on both the run is non-trivial and reaches the sink *)
 Example visit_terminates_nonvacuous :
   ord_perm ord_id /\ path_insensitive ex1_g /\ wf_trace ex1_g [1%positive] /\
   (let o := visit ex1_g ex1_P cfg0 ord_id 1 40 [1%positive] 0 in
-   is_done o = true /\ hit_nodes o = [(5%positive, [])] /\ List.length (st_visited (outcome_state o)) = 9%nat).
-Proof. split; [exact ord_id_perm|]. split; [exact ex1_pi|]. split; [exact ex1_root_wf|exact ex1_run]. Qed.
+   is_done o = true /\ hit_nodes o = [(5%positive, [])] /\ List.length (st_visited (outcome_state o)) = 9%nat) /\
+  c_fixaps cfg_fixed = true /\ wf_trace ex3_g [1%positive] /\
+  (let o' := visit ex3_g ex3_P cfg_fixed ord_id 1 300 [1%positive] 0 in
+   is_done o' = true /\ map fst (hit_nodes o') = [5%positive]).
+Proof.
+  split; [exact ord_id_perm|]. split; [exact ex1_pi|]. split; [exact ex1_root_wf|]. split; [exact ex1_run|].
+  split; [reflexivity|]. split.
+  - split.
+    + simpl. constructor; [intros []|constructor].
+    + constructor; [|constructor]. unfold in_dom. vm_compute. discriminate.
+  - vm_compute. split; reflexivity.
+Qed.
 
-(** field-sensitive mode is NOT covered by [visit_terminates]: on the 7-node graph of `x := source(); for .. { x = id(x) };
-    sink(x.A)` the faithful model is still running after 300 iterations with access-path lists of more than 100 entries,
-    while the repaired variant of [addNext] (deduplicate + sort, proposed_fixes/C07-accesspaths-dedup.diff) finishes *)
-Example visit_fs_divergence_bounded :
+(** before fix d51dcca: on the 7-node graph of `x := source(); for .. { x = id(x) }; sink(x.A)` the model of the original
+    [addNext] is still running after 300 iterations with access-path lists of more than 100 entries (over 3 distinct paths);
+    the current one finishes after 7 visits *)
+Example visit_unfixed_divergence_bounded :
   let o := visit ex3_g ex3_P cfg0 ord_id 1 300 [1%positive] 0 in
   let o' := visit ex3_g ex3_P cfg_fixed ord_id 1 300 [1%positive] 0 in
-  is_out_of_fuel o = true /\ Nat.leb 100 (max_aps o) = true /\
+  c_fixaps cfg0 = false /\ is_out_of_fuel o = true /\ Nat.leb 100 (max_aps o) = true /\
   is_done o' = true /\ Nat.leb (max_aps o') 3 = true /\ map fst (hit_nodes o') = [5%positive] /\
   existsb (fun h => Pos.eqb (fst h) 5) (hit_nodes o) = true.
-Proof. exact f3_diverges_bounded. Qed.
-
-(** the REPAIRED [addNext] (access paths deduplicated and sorted, [c_fixaps cfg = true]) terminates on EVERY graph, with
-    arbitrary relative paths, i.e. in field-sensitive mode as well *)
-Theorem visit_terminates_repaired :
-  forall (g : graph) (P : preds) (cfg : config) (ord : oracle) (src : id) (t : list id) (alarms : N),
-    ord_perm ord -> c_fixaps cfg = true -> wf_trace g t ->
-    forall st, visit g P cfg ord src (fuel_bound_fs g) t alarms <> OutOfFuel st.
-Proof. exact visit_terminates_fixed_lemma. Qed.
+Proof. split; [reflexivity|exact f3_diverges_bounded]. Qed.
 
 (** ** (b) dispatch tables *)
 
@@ -68,7 +78,8 @@ Definition uncovered (sw : tswitch) : list string := filter (fun t => negb (str_
                          summarised or given to the pointer analysis): GEN reachable_uninstantiated = 0 and
                          reachable_multiconvert = 0 on a corpus that does contain MultiConvert instructions;
       *dataflow.IfNode   has no outgoing edge and is not a backtrace entry point, so the backward traversal never visits it;
-      *ssa.Const         `go` statement whose function value is a constant: probed by corpus/c07/gonil. *)
+      *ssa.Const         `go` statement whose function value is a constant: REACHABLE, corpus/c07/gonil panics the escape
+                         analysis (known finding); kept as an exception so that any OTHER uncovered type breaks the theorem. *)
 Definition exceptions : list (string * string * string) :=
   [ ("InstrSwitch", "ssa.Instruction", "*ssa.MultiConvert");
     ("*analysis.genInstr", "ssa.Instruction", "*ssa.MultiConvert");
